@@ -303,6 +303,22 @@ func cloneHeap(h map[string]*Term) map[string]*Term {
 }
 
 func (c *Ctx) specIdent(env *SpecEnv, name string) Value {
+	// inside a loop clause a name that the loop re-assigns (header phi), parameters included, means its current value
+	if env.frame != nil && env.atLoop != nil && !env.inOld {
+		for l := env.atLoop; l != nil; l = l.Parent {
+			for _, in := range l.Header.Instrs {
+				ph, ok := in.(*ssa.Phi)
+				if !ok {
+					break
+				}
+				if ph.Comment == name {
+					if v, ok := env.frame.Env[ph]; ok {
+						return v
+					}
+				}
+			}
+		}
+	}
 	if v, ok := env.vars[name]; ok {
 		return v
 	}
@@ -1246,9 +1262,8 @@ func (c *Ctx) specCall(env *SpecEnv, e *SExpr) Value {
 			return present
 		case "calls":
 			// calls(Name): number of logged calls whose callee matches
-			if env.st.CutLoops > 0 {
-				specError("calls() counts are not meaningful once a loop has been cut")
-			}
+			// after a cut loop the count is still exact: checkCountedCalls obliges every iteration of every cut
+			// loop to make no call that some calls(Name) of this contract counts
 			n := 0
 			name := e.Args[1].Name
 			if e.Args[1].Kind == "str" {
@@ -1537,13 +1552,14 @@ func (c *Ctx) havocLocation(env *SpecEnv, m string) {
 	if strings.HasPrefix(m, "ghost ") {
 		g := strings.TrimSpace(m[6:])
 		if v, ok := st.Ghost[g]; ok {
-			if t, ok := v.(*Term); ok {
-				st.Ghost[g] = Fresh("havoc.ghost."+g, t.Sort)
-			}
+			st.Ghost[g] = c.havocGhost(st, g, v)
 		}
 		return
 	}
 	loc := c.resolveLocation(env, m)
+	if os.Getenv("GOVC_DEBUG_HAVOC") != "" {
+		fmt.Printf("havoc %q -> kind=%s obj=%v path=%v\n", m, loc.kind, loc.obj, loc.path)
+	}
 	switch loc.kind {
 	case "obj":
 		cur := c.mem(st, loc.obj)
@@ -1839,4 +1855,58 @@ func (c *Ctx) strOfRunes(env *SpecEnv, s StrV, main *Term, comb SliceV) *Term {
 	}
 	specError("strOfRunes: unsupported string form %s", showValue(s))
 	return nil
+}
+
+// countedNames: the names N of all calls(N) expressions in the contract of the function under verification.
+func (c *Ctx) countedNames() []string {
+	if c.Spec == nil {
+		return nil
+	}
+	seen := map[string]bool{}
+	var out []string
+	var walk func(e *SExpr)
+	walk = func(e *SExpr) {
+		if e == nil {
+			return
+		}
+		if e.Kind == "call" && len(e.Args) == 2 && e.Args[0].Kind == "ident" && e.Args[0].Name == "calls" {
+			if n := e.Args[1].Name; !seen[n] {
+				seen[n] = true
+				out = append(out, n)
+			}
+		}
+		for _, a := range e.Args {
+			walk(a)
+		}
+	}
+	for _, en := range c.Spec.Ensures {
+		walk(en.Expr)
+	}
+	for _, cl := range c.Spec.Calls {
+		walk(cl.Expr)
+	}
+	return out
+}
+
+// checkCountedCalls: at the back edge of a cut loop, the iteration made no call that a calls(Name) count of the
+// contract refers to (otherwise the count at exit, which cannot see the iterations, would be wrong).
+func (c *Ctx) checkCountedCalls(st *State, fr *Frame, loop *Loop, al *ActiveLoop) {
+	if fr.Fn != c.Fn || al == nil {
+		return
+	}
+	for _, n := range c.countedNames() {
+		var cs []*Term
+		for i := al.LogLen; i < len(st.CallLog); i++ {
+			r := st.CallLog[i]
+			if callMatches(r.Callee, n) {
+				if r.Cond != nil {
+					cs = append(cs, Not(r.Cond))
+				} else {
+					cs = append(cs, False())
+				}
+			}
+		}
+		c.oblige(st, fmt.Sprintf("%s/loop%s/no-counted-call#%s", fnDisplay(c.Fn), loop.ID, sanitize(n)), "calls", And(cs...),
+			"calls("+n+") is counted by the contract: no iteration of the cut loop may make such a call", loop.Pos)
+	}
 }
